@@ -117,6 +117,10 @@ def main():
         ids = [i for i in ids if re.search(os.environ['SEED_FILTER'], i)]
     mathy = [i for i in ids if 'math.py' in (VERIF / 'seeded' / i / 'patch.diff').read_text()]
     rest = [i for i in ids if i not in mathy]
+    if os.environ.get('SEED_MATH') == 'skip':
+        mathy = []
+    elif os.environ.get('SEED_MATH') == 'only':
+        rest = []
     wts = []
     for k in range(workers):
         wt = f'/tmp/seedwt{k}'
